@@ -17,7 +17,11 @@ extern "C" void harness_main()
 {
   Memory memory; memory.endian = ENDIAN;
   uint8_t b[NBYTES];
-  for (int i = 0; i < NBYTES; i++) { b[i] = symx_u8("b"); memory.write8(BASE + i, b[i]); }
+  for (int i = 0; i < NBYTES; i++) b[i] = symx_u8("b");
+#ifdef PART_BYTE
+  symx_assume((b[PART_BYTE] >> 4) == PART);      // partition of the opcode space handled by this job
+#endif
+  for (int i = 0; i < NBYTES; i++) memory.write8(BASE + i, b[i]);
   char text[TEXTLEN]; int cmin = 0, cmax = 0;
   memset(text, 0x55, sizeof(text));
   int n = DISASM_FN(&memory, BASE, text, TEXTLEN, FLAGS, &cmin, &cmax);
